@@ -7,7 +7,7 @@ from . import graph as G
 def run(prop, tier, seed, replay=None):
     t0 = time.time()
     problems = []      # things that break the proof or the correspondence
-    proof = C.proof_gate(prop)
+    proof = C.proof_gate(prop, tier)
     if not proof['ok']:
         problems += proof['problems']
     exe_model, err = C.build_driver()
@@ -137,7 +137,7 @@ def run(prop, tier, seed, replay=None):
         'obligations': max(1, len(proof['theorems'])),
         'discharged': len(proof['theorems']) if proof['ok'] else 0,
         'checker_cmd': proof['checker_cmd'],
-        'trusted_base': C.TRUSTED_BASE + ['axioms reported by Print Assumptions: ' + (', '.join(proof['axioms']) or 'none (closed under the global context)')],
+        'trusted_base': C.TRUSTED_BASE + ['axioms reported by Print Assumptions: ' + (', '.join(proof['axioms']) or 'none (closed under the global context)')] + (['coqchk -o (independent re-check of the compiled property file and its dependencies): ' + proof['coqchk']] if proof.get('coqchk') else []),
         'theorems': proof['theorems'],
         'evaluations': len(cases),
         'distinct_nontrivial': len(nontrivial),
